@@ -8,7 +8,9 @@
 
 use std::panic::{AssertUnwindSafe, catch_unwind};
 
-use crate::ast::{Expr, FStringPart, Literal};
+use crate::ast::{
+    Block, Expr, FStringPart, Literal, Pattern, Record, Stmt,
+};
 use crate::parser::{Parser, lexer::Lexer, meta::Spans};
 
 fn hex(s: &str) -> String {
@@ -80,8 +82,133 @@ fn sexp(e: &Expr, out: &mut String) {
             }
             out.push(')');
         }
+        Expr::Block(b) => block_sexp(&b.node, out),
+        Expr::List(items) => {
+            out.push_str("(list");
+            for i in items {
+                out.push(' ');
+                sexp(&i.node, out);
+            }
+            out.push(')');
+        }
+        Expr::Record(r) => {
+            out.push_str("(rec");
+            record_fields(&r.node, out);
+            out.push(')');
+        }
+        Expr::TypedRecord(p, r) => {
+            let v: Vec<&str> =
+                p.node.idents.iter().map(|i| i.node.as_str()).collect();
+            out.push_str(&format!("(trec {}", v.join(".")));
+            record_fields(&r.node, out);
+            out.push(')');
+        }
+        Expr::FunctionCall(f, args) => {
+            out.push_str("(call ");
+            sexp(&f.node, out);
+            for a in &args.node {
+                out.push(' ');
+                sexp(&a.node, out);
+            }
+            out.push(')');
+        }
+        Expr::Access(e, name) => {
+            out.push_str("(field ");
+            sexp(&e.node, out);
+            out.push_str(&format!(" {})", name.node.as_str()));
+        }
+        Expr::QuestionMark(e) => {
+            out.push_str("(try ");
+            sexp(&e.node, out);
+            out.push(')');
+        }
+        Expr::Return(kind, val) => {
+            out.push_str(&format!("({}", format!("{kind:?}").to_lowercase()));
+            if let Some(v) = val {
+                out.push(' ');
+                sexp(&v.node, out);
+            }
+            out.push(')');
+        }
+        Expr::IfElse(c, t, e) => {
+            out.push_str("(if ");
+            sexp(&c.node, out);
+            out.push(' ');
+            block_sexp(&t.node, out);
+            if let Some(e) = e {
+                out.push(' ');
+                block_sexp(&e.node, out);
+            }
+            out.push(')');
+        }
+        Expr::Match(m) => {
+            out.push_str("(match ");
+            sexp(&m.node.expr.node, out);
+            for arm in &m.node.arms {
+                out.push_str(" (arm ");
+                match &arm.pattern.node {
+                    Pattern::Underscore => out.push('_'),
+                    Pattern::EnumVariant { variant, fields } => {
+                        out.push_str(variant.node.as_str());
+                        if let Some(fs) = fields {
+                            let v: Vec<&str> =
+                                fs.node.iter().map(|i| i.node.as_str()).collect();
+                            out.push_str(&format!("({})", v.join(",")));
+                        }
+                    }
+                }
+                if let Some(g) = &arm.guard {
+                    out.push_str(" (guard ");
+                    sexp(&g.node, out);
+                    out.push(')');
+                }
+                out.push(' ');
+                block_sexp(&arm.body.node, out);
+                out.push(')');
+            }
+            out.push(')');
+        }
+        Expr::Assign(p, e) => {
+            let v: Vec<&str> =
+                p.node.idents.iter().map(|i| i.node.as_str()).collect();
+            out.push_str(&format!("(assign {} ", v.join(".")));
+            sexp(&e.node, out);
+            out.push(')');
+        }
         _ => out.push_str("(other)"),
     }
+}
+
+fn record_fields(r: &Record, out: &mut String) {
+    for (k, v) in &r.fields {
+        out.push_str(&format!(" ({} ", k.node.as_str()));
+        sexp(&v.node, out);
+        out.push(')');
+    }
+}
+
+fn block_sexp(b: &Block, out: &mut String) {
+    out.push_str("(block");
+    for s in &b.stmts {
+        match &s.node {
+            Stmt::Let(name, _, e) => {
+                out.push_str(&format!(" (let {} ", name.node.as_str()));
+                sexp(&e.node, out);
+                out.push(')');
+            }
+            Stmt::Expr(e) => {
+                out.push_str(" (stmt ");
+                sexp(&e.node, out);
+                out.push(')');
+            }
+        }
+    }
+    if let Some(e) = &b.last {
+        out.push_str(" (last ");
+        sexp(&e.node, out);
+        out.push(')');
+    }
+    out.push(')');
 }
 
 fn panic_text(e: Box<dyn std::any::Any + Send>) -> String {
